@@ -1,6 +1,10 @@
 package tds
 
-import "errors"
+import (
+	"errors"
+	"fmt"
+	"io"
+)
 
 // C03: each response is delimited by exactly one final DONE and fully drained.
 //
@@ -127,7 +131,7 @@ func HarnessC03_Round() {
 	m := &hResp{}
 	m.retstat(0xC0FFEE)
 	m.done(TDS_DONE, 0, 0, 0)
-	hDeliver(ch, m.b, 0)
+	hDeliver(ch, m.b, []int{0, 5}[vfPick("cut2", 0, 1)])
 	pkg, err := ch.NextPackage(ctx, true)
 	vfAssert(err == nil, "next round: no error")
 	rs, ok := pkg.(*ReturnStatusPackage)
@@ -139,6 +143,7 @@ func HarnessC03_Round() {
 }
 
 var errC03Callback = errors.New("harness: callback failed")
+var errC03WrapsEOF = fmt.Errorf("harness: callback failed: %w", io.EOF)
 
 // NextPackageUntil with a callback that fails at a symbolic point: the rest of
 // the response is consumed as well.
@@ -152,7 +157,12 @@ func HarnessC03_CallbackError() {
 	want, _ := c03Response(r, 2)
 	hDeliver(ch, r.b, c03Cut())
 	failAt := vfPick("failAt", 0, 2)
-	useEOF := vfBool("useEOF")
+	errKind := vfPick("errKind", 0, 2) // 0: plain error, 1: unwrapped io.EOF, 2: an error wrapping io.EOF
+	useEOF := errKind == 1
+	cbErr := errC03Callback
+	if errKind == 2 {
+		cbErr = errC03WrapsEOF
+	}
 	seen := 0
 	ctx := vfNewCtx("consumer")
 	_, err := ch.NextPackageUntil(ctx, true, func(pkg Package) (bool, error) {
@@ -161,20 +171,20 @@ func HarnessC03_CallbackError() {
 			if useEOF {
 				return false, errIOEOF()
 			}
-			return false, errC03Callback
+			return false, cbErr
 		}
 		seen++
 		return isDoneFinal(pkg)
 	})
 	_ = want
 	if seen > failAt && !useEOF {
-		vfAssert(err != nil && errors.Is(err, errC03Callback), "callback error is returned (wrapped)")
+		vfAssert(err != nil && errors.Is(err, cbErr), "callback error is returned (wrapped)")
 		vfAssert(len(ch.packageCh) == 0, "rest of the response consumed after a callback error")
 		// next round starts clean
 		m := &hResp{}
 		m.retstat(0xC0FFEE)
 		m.done(TDS_DONE, 0, 0, 0)
-		hDeliver(ch, m.b, 0)
+		hDeliver(ch, m.b, []int{0, 5}[vfPick("cut2", 0, 1)])
 		pkg, e2 := ch.NextPackage(ctx, true)
 		rs, ok := pkg.(*ReturnStatusPackage)
 		vfAssert(e2 == nil && ok && uint32(rs.ReturnValue) == 0xC0FFEE, "after a callback error the next read belongs to the next response")
@@ -203,10 +213,18 @@ func HarnessC03_History() {
 	tds, _ := hNewConn(512)
 	ch := hNewChannel(tds, 0)
 	ctx := vfNewCtx("consumer")
-	for round := 0; round < 3; round++ {
+	rounds := 2
+	if vfThorough() {
+		rounds = 3
+	}
+	for round := 0; round < rounds; round++ {
 		r := &hResp{}
 		want, _ := c03Response(r, 1)
-		hDeliver(ch, r.b, 0)
+		cut := 0
+		if round > 0 {
+			cut = []int{0, 5}[vfPick("cut", 0, 1)]
+		}
+		hDeliver(ch, r.b, cut)
 		for i := 0; ; i++ {
 			pkg, err := ch.NextPackage(ctx, true)
 			vfAssert(err == nil, "history: no error")
